@@ -72,7 +72,11 @@ def mutants(rng, case, k=6):
             inner['f'] = 'W:' + inner['f']      # a decorated version (functools.wraps) of the same function: another computation
             what = 'wrap'
         elif kind == 'const' and e['k'] == 'const' and n['name'].startswith('n'):
-            e['v'] = rng.choice([x for x in [0, 1, 'a', 'b', None, [1], 'q'] if x != e['v']])
+            if isinstance(e['v'], list) and rng.random() < 0.6:
+                # the same items in a list instead of a tuple (JSON lists are tuples): another constant
+                e['v'] = {'app': ['$list', e['v'], [], []]}
+            else:
+                e['v'] = rng.choice([x for x in [0, 1, 'a', 'b', None, [1], 'q'] if x != e['v']])
             what = 'const'
         elif kind == 'swap' and len(n['parents']) >= 2 and e['k'] in ('fn', 'product', 'byvalue'):
             a, b = rng.sample(range(len(n['parents'])), 2)
